@@ -1,7 +1,8 @@
-(* The Lie bracket of core/flow.py (generated formula over the Jacobians) is bilinear and antisymmetric for every
-   linear derivative operator, at every sample point. *)
+(* The Lie bracket of core/flow.py (generated formula over the Jacobians) is bilinear for every pair of linear derivative
+   operators (one per argument), and antisymmetric when both Jacobians are computed by the SAME operator -- which is what the
+   source does: the options lie_bracket forwards to flow_derivatives for its two Jacobians are identical (generated). *)
 From Coq Require Import ZArith List Field Ring Lia Bool.
-From DV Require Import Base.Field Base.LinAlg Base.Tactics Gen.FlowDeriv Model.Lie.
+From DV Require Import Base.Field Base.LinAlg Base.Tactics Model.BCH Gen.FlowDeriv Gen.FlowBCH Model.Lie.
 Import ListNotations.
 Local Open Scope fld_scope.
 
@@ -10,35 +11,110 @@ Variable K : fld.
 Hypothesis Kf : is_field K.
 Add Field KFL : Kf.
 Variable P : Type.
+
+Section TwoOps.
+Variables dxv dxu : nat -> (P -> K) -> (P -> K).
+Hypothesis Hv : linear_opg P dxv.
+Hypothesis Hu : linear_opg P dxu.
+
+Ltac lin := destruct Hv as [Hvadd Hvsc]; destruct Hu as [Huadd Husc]; intro p;
+  cbn [fst snd lie2g lie3g vadd2 vscale2 vadd3 vscale3];
+  rewrite ?Hvadd, ?Hvsc, ?Huadd, ?Husc; unfold gen_lie2, gen_lie3, sadd, sscale; cbn [nth]; repeat split; ring.
+
+Theorem lie2g_add_l v v' u : veq2 P (lie2g P dxv dxu (vadd2 P v v') u) (vadd2 P (lie2g P dxv dxu v u) (lie2g P dxv dxu v' u)).
+Proof. destruct v as [v0 v1], v' as [w0 w1], u as [u0 u1]. lin. Qed.
+Theorem lie2g_add_r v u u' : veq2 P (lie2g P dxv dxu v (vadd2 P u u')) (vadd2 P (lie2g P dxv dxu v u) (lie2g P dxv dxu v u')).
+Proof. destruct v as [v0 v1], u' as [w0 w1], u as [u0 u1]. lin. Qed.
+Theorem lie2g_scale_l c v u : veq2 P (lie2g P dxv dxu (vscale2 P c v) u) (vscale2 P c (lie2g P dxv dxu v u)).
+Proof. destruct v as [v0 v1], u as [u0 u1]. lin. Qed.
+Theorem lie2g_scale_r c v u : veq2 P (lie2g P dxv dxu v (vscale2 P c u)) (vscale2 P c (lie2g P dxv dxu v u)).
+Proof. destruct v as [v0 v1], u as [u0 u1]. lin. Qed.
+(* swapping the arguments AND the operators negates the bracket *)
+Theorem lie2g_swap v u : veq2 P (lie2g P dxv dxu v u) (vscale2 P (- (1)) (lie2g P dxu dxv u v)).
+Proof. destruct v as [v0 v1], u as [u0 u1]. lin. Qed.
+
+Theorem lie3g_add_l v v' u : veq3 P (lie3g P dxv dxu (vadd3 P v v') u) (vadd3 P (lie3g P dxv dxu v u) (lie3g P dxv dxu v' u)).
+Proof. destruct v as [[v0 v1] v2], v' as [[w0 w1] w2], u as [[u0 u1] u2]. lin. Qed.
+Theorem lie3g_add_r v u u' : veq3 P (lie3g P dxv dxu v (vadd3 P u u')) (vadd3 P (lie3g P dxv dxu v u) (lie3g P dxv dxu v u')).
+Proof. destruct v as [[v0 v1] v2], u' as [[w0 w1] w2], u as [[u0 u1] u2]. lin. Qed.
+Theorem lie3g_scale_l c v u : veq3 P (lie3g P dxv dxu (vscale3 P c v) u) (vscale3 P c (lie3g P dxv dxu v u)).
+Proof. destruct v as [[v0 v1] v2], u as [[u0 u1] u2]. lin. Qed.
+Theorem lie3g_scale_r c v u : veq3 P (lie3g P dxv dxu v (vscale3 P c u)) (vscale3 P c (lie3g P dxv dxu v u)).
+Proof. destruct v as [[v0 v1] v2], u as [[u0 u1] u2]. lin. Qed.
+Theorem lie3g_swap v u : veq3 P (lie3g P dxv dxu v u) (vscale3 P (- (1)) (lie3g P dxu dxv u v)).
+Proof. destruct v as [[v0 v1] v2], u as [[u0 u1] u2]. lin. Qed.
+End TwoOps.
+
+(* one operator for both arguments *)
 Variable dx : nat -> (P -> K) -> (P -> K).
 Hypothesis Hlin : linear_op P dx.
-
-Ltac lin := destruct Hlin as [Hadd Hsc]; intro p; cbn [fst snd lie2 lie3 vadd2 vscale2 vadd3 vscale3];
-  rewrite ?Hadd, ?Hsc; unfold gen_lie2, gen_lie3, sadd, sscale; cbn [nth]; repeat split; ring.
-
 Theorem lie2_add_l v v' u : veq2 P (lie2 P dx (vadd2 P v v') u) (vadd2 P (lie2 P dx v u) (lie2 P dx v' u)).
-Proof. destruct v as [v0 v1], v' as [w0 w1], u as [u0 u1]. lin. Qed.
+Proof. now apply lie2g_add_l. Qed.
 Theorem lie2_add_r v u u' : veq2 P (lie2 P dx v (vadd2 P u u')) (vadd2 P (lie2 P dx v u) (lie2 P dx v u')).
-Proof. destruct v as [v0 v1], u' as [w0 w1], u as [u0 u1]. lin. Qed.
+Proof. now apply lie2g_add_r. Qed.
 Theorem lie2_scale_l c v u : veq2 P (lie2 P dx (vscale2 P c v) u) (vscale2 P c (lie2 P dx v u)).
-Proof. destruct v as [v0 v1], u as [u0 u1]. lin. Qed.
+Proof. now apply lie2g_scale_l. Qed.
 Theorem lie2_scale_r c v u : veq2 P (lie2 P dx v (vscale2 P c u)) (vscale2 P c (lie2 P dx v u)).
-Proof. destruct v as [v0 v1], u as [u0 u1]. lin. Qed.
+Proof. now apply lie2g_scale_r. Qed.
 Theorem lie2_antisym v u : veq2 P (lie2 P dx v u) (vscale2 P (- (1)) (lie2 P dx u v)).
-Proof. destruct v as [v0 v1], u as [u0 u1]. lin. Qed.
+Proof. now apply lie2g_swap. Qed.
 Theorem lie2_self v : veq2 P (lie2 P dx v v) (fun _ => 0, fun _ => 0).
-Proof. destruct v as [v0 v1]. lin. Qed.
-
+Proof. destruct v as [v0 v1]. intro p. cbn [fst snd]. unfold lie2, lie2g, gen_lie2. cbn [nth fst snd]. split; ring. Qed.
 Theorem lie3_add_l v v' u : veq3 P (lie3 P dx (vadd3 P v v') u) (vadd3 P (lie3 P dx v u) (lie3 P dx v' u)).
-Proof. destruct v as [[v0 v1] v2], v' as [[w0 w1] w2], u as [[u0 u1] u2]. lin. Qed.
+Proof. now apply lie3g_add_l. Qed.
 Theorem lie3_add_r v u u' : veq3 P (lie3 P dx v (vadd3 P u u')) (vadd3 P (lie3 P dx v u) (lie3 P dx v u')).
-Proof. destruct v as [[v0 v1] v2], u' as [[w0 w1] w2], u as [[u0 u1] u2]. lin. Qed.
+Proof. now apply lie3g_add_r. Qed.
 Theorem lie3_scale_l c v u : veq3 P (lie3 P dx (vscale3 P c v) u) (vscale3 P c (lie3 P dx v u)).
-Proof. destruct v as [[v0 v1] v2], u as [[u0 u1] u2]. lin. Qed.
+Proof. now apply lie3g_scale_l. Qed.
 Theorem lie3_scale_r c v u : veq3 P (lie3 P dx v (vscale3 P c u)) (vscale3 P c (lie3 P dx v u)).
-Proof. destruct v as [[v0 v1] v2], u as [[u0 u1] u2]. lin. Qed.
+Proof. now apply lie3g_scale_r. Qed.
 Theorem lie3_antisym v u : veq3 P (lie3 P dx v u) (vscale3 P (- (1)) (lie3 P dx u v)).
-Proof. destruct v as [[v0 v1] v2], u as [[u0 u1] u2]. lin. Qed.
+Proof. now apply lie3g_swap. Qed.
 Theorem lie3_self v : veq3 P (lie3 P dx v v) (fun _ => 0, fun _ => 0, fun _ => 0).
-Proof. destruct v as [[v0 v1] v2]. lin. Qed.
+Proof. destruct v as [[v0 v1] v2]. intro p. cbn [fst snd]. unfold lie3, lie3g, gen_lie3. cbn [nth fst snd]. repeat split; ring. Qed.
+
+(* ---- lie_bracket AS CODED: the operator of each Jacobian is determined by the options the source forwards for it ---- *)
+Lemma gen_lie_opts_equal : gen_lie_opts_first_arg = gen_lie_opts_second_arg.
+Proof. reflexivity. Qed.
+Lemma gen_lie_opts_all : gen_lie_opts_first_arg = (true, true, true, true) /\ gen_lie_opts_second_arg = (true, true, true, true).
+Proof. split; reflexivity. Qed.
+
+Variable dxo : lopts -> nat -> (P -> K) -> (P -> K).
+Hypothesis Hlo : forall o, linear_opg P (dxo o).
+Theorem lie2_code_is_single_operator v u : lie2_code P dxo v u = lie2 P (dxo (true, true, true, true)) v u.
+Proof. unfold lie2_code, lie2. destruct gen_lie_opts_all as [-> ->]. reflexivity. Qed.
+Theorem lie3_code_is_single_operator v u : lie3_code P dxo v u = lie3 P (dxo (true, true, true, true)) v u.
+Proof. unfold lie3_code, lie3. destruct gen_lie_opts_all as [-> ->]. reflexivity. Qed.
+Theorem lie2_code_antisym v u : veq2 P (lie2_code P dxo v u) (vscale2 P (- (1)) (lie2_code P dxo u v)).
+Proof. unfold lie2_code. rewrite gen_lie_opts_equal. now apply lie2g_swap. Qed.
+Theorem lie3_code_antisym v u : veq3 P (lie3_code P dxo v u) (vscale3 P (- (1)) (lie3_code P dxo u v)).
+Proof. unfold lie3_code. rewrite gen_lie_opts_equal. now apply lie3g_swap. Qed.
+Theorem lie2_code_self v : veq2 P (lie2_code P dxo v v) (fun _ => 0, fun _ => 0).
+Proof.
+  rewrite lie2_code_is_single_operator. destruct v as [v0 v1]. intro p. cbn [fst snd]. unfold lie2, lie2g, gen_lie2.
+  cbn [nth fst snd]. split; ring.
+Qed.
+Theorem lie3_code_self v : veq3 P (lie3_code P dxo v v) (fun _ => 0, fun _ => 0, fun _ => 0).
+Proof.
+  rewrite lie3_code_is_single_operator. destruct v as [[v0 v1] v2]. intro p. cbn [fst snd]. unfold lie3, lie3g, gen_lie3.
+  cbn [nth fst snd]. repeat split; ring.
+Qed.
+Theorem lie2_code_bilinear c v v' u u' :
+  veq2 P (lie2_code P dxo (vadd2 P v v') u) (vadd2 P (lie2_code P dxo v u) (lie2_code P dxo v' u)) /\
+  veq2 P (lie2_code P dxo v (vadd2 P u u')) (vadd2 P (lie2_code P dxo v u) (lie2_code P dxo v u')) /\
+  veq2 P (lie2_code P dxo (vscale2 P c v) u) (vscale2 P c (lie2_code P dxo v u)) /\
+  veq2 P (lie2_code P dxo v (vscale2 P c u)) (vscale2 P c (lie2_code P dxo v u)).
+Proof.
+  unfold lie2_code. split; [|split; [|split]];
+    [apply lie2g_add_l | apply lie2g_add_r | apply lie2g_scale_l | apply lie2g_scale_r]; apply Hlo.
+Qed.
+Theorem lie3_code_bilinear c v v' u u' :
+  veq3 P (lie3_code P dxo (vadd3 P v v') u) (vadd3 P (lie3_code P dxo v u) (lie3_code P dxo v' u)) /\
+  veq3 P (lie3_code P dxo v (vadd3 P u u')) (vadd3 P (lie3_code P dxo v u) (lie3_code P dxo v u')) /\
+  veq3 P (lie3_code P dxo (vscale3 P c v) u) (vscale3 P c (lie3_code P dxo v u)) /\
+  veq3 P (lie3_code P dxo v (vscale3 P c u)) (vscale3 P c (lie3_code P dxo v u)).
+Proof.
+  unfold lie3_code. split; [|split; [|split]];
+    [apply lie3g_add_l | apply lie3g_add_r | apply lie3g_scale_l | apply lie3g_scale_r]; apply Hlo.
+Qed.
 End LieFacts.
